@@ -49,7 +49,7 @@ class C13(Prop):
     assumptions = ['second-order tensors are found by reading the attributes a_inv, g_inv, qa, qg, da, dg, dgda of the layer objects',
                    'gradient averaging done by the harness (phase "ddp") is excluded from the trace comparison',
                    'vkit/simdist records exactly the collectives the code issues']
-    examples = {'quick': 100, 'thorough': 500}
+    examples = {'quick': 150, 'thorough': 500}
     shards = {'quick': 4, 'thorough': 16}
     shrink_budget_s = {'quick': 30.0, 'thorough': 180.0}
     required_labels = {'quick': ['nontrivial=True', 'strategy=HYBRID', 'strategy=MEM', 'strategy=COMM', 'symmetry=True'],
